@@ -330,6 +330,8 @@ def inline_private_helpers(f: "FuncInfo", depth: int = 3, methods: bool = False,
 
     counter = [0]
     funcs = f.module.functions
+    # names already used in the caller: an inlined local is renamed only when it would collide
+    caller_names = {n.id for n in ast.walk(f.node) if isinstance(n, ast.Name)} | {a.arg for a in ast.walk(f.node) if isinstance(a, ast.arg)}
 
     def ends(stmts):
         """The statement list always leaves (return / raise) at its end."""
@@ -489,11 +491,12 @@ def inline_private_helpers(f: "FuncInfo", depth: int = 3, methods: bool = False,
                         return _copy.deepcopy(binds[n.id])
                     b = binds[n.id]
                     return ast.Name(id=b.id, ctx=n.ctx) if isinstance(b, ast.Name) else n
-                if n.id in stored:
+                if n.id in stored and n.id in caller_names:
                     return ast.Name(id=pre + n.id, ctx=n.ctx)
                 return n
 
         body = [Ren().visit(st) for st in body]
+        caller_names.update(stored)  # a second inlined copy of the same helper must not share them
         if any(isinstance(n, ast.Return) for st in body[:-1] for n in ast.walk(st)):
             body, _all = single_exit(body, targets)
             if targets is not None and not _all:
@@ -653,6 +656,8 @@ def bool_equivalent(conds, expected: ast.expr, atom_text=None) -> bool | None:
         """-> (atom text, polarity)"""
         if isinstance(e, ast.Compare) and len(e.ops) == 1 and isinstance(e.comparators[0], ast.Constant) and e.comparators[0].value is None and isinstance(e.ops[0], (ast.Is, ast.IsNot)):
             return f"{norm(e.left)} is not None", isinstance(e.ops[0], ast.IsNot)
+        if isinstance(e, ast.Compare) and len(e.ops) == 1 and isinstance(e.ops[0], (ast.Eq, ast.NotEq)):
+            return f"{norm(e.left)} == {norm(e.comparators[0])}", isinstance(e.ops[0], ast.Eq)
         return norm(e), True
 
     def ev(e, env):
